@@ -1,4 +1,4 @@
-import DoltVerif.Lemmas.RowMerge
+import DoltVerif.Lemmas.RowMergeTotal
 /-!
 C29 — dolt_merge produces the row-level three-way merge.
 
@@ -97,28 +97,31 @@ def fBase : Table := ⟨[⟨1, .int⟩], [(1, [some (.int 10)]), (2, [some (.int
 def fOurs : Table := ⟨[⟨3, .str⟩, ⟨1, .int⟩], [(1, [none, some (.int 11)]), (2, [none, some (.int 20)])]⟩
 def fTheirs : Table := ⟨[⟨1, .int⟩], [(2, [some (.int 20)])]⟩
 
-/-- every stored row is well typed for the table's schema -/
-def tableOk (t : Table) : Bool := t.rows.all (fun p => rowOk t.sch p.2)
-
-/-- "the merge never fails internally … when one side added, dropped or reordered columns" -/
+/-- "the merge never fails internally, including when one side added, dropped or reordered
+columns": for all tables whose schemas give every column id one type (any additions at any
+position, drops and reorders — on either side) and whose rows are well typed -/
 def merge_total_full (pick : VM → Schema) : Prop :=
-  ∀ (base ours theirs : Table),
-    (ours.sch = base.sch ∨ theirs.sch = base.sch) →
+  ∀ (base ours theirs : Table), TypeConsistent base.sch ours.sch theirs.sch →
     tableOk base = true → tableOk ours = true → tableOk theirs = true →
-    ∀ e, mergeTableG pick false base ours theirs = .error e → e = .schemaConflict
+    IsOk (mergeTableG pick false base ours theirs)
 
-/-- with the schema choice dolt made before commit 64cd79f the statement is FALSE: the witness
+/-- **merge_total** holds of the code as fixed by dolt commit 64cd79f -/
+theorem merge_total : merge_total_full leftTypeSchemaInRightDeleteBranch :=
+  fun b o t tc hb ho ht => mergeTable_total false b o t tc hb ho ht
+
+theorem witness_typeConsistent : TypeConsistent fBase.sch fOurs.sch fTheirs.sch := by
+  constructor <;>
+  · intro c hc d hd e
+    simp [fBase, fOurs, fTheirs] at hc hd
+    rcases hc with rfl | rfl <;> rcases hd with rfl | rfl <;> simp_all
+
+/-- with the schema choice dolt made before the fix the statement is FALSE: the witness
 (well-typed rows, one-sided column add) makes the merge panic (index out of range) -/
 theorem merge_total_refuted_before_fix : ¬ merge_total_full leftTypeSchemaBuggy := by
   intro h
   have hw : isErr (mergeTableG leftTypeSchemaBuggy false fBase fOurs fTheirs) .panic = true := by decide
-  cases hm : mergeTableG leftTypeSchemaBuggy false fBase fOurs fTheirs with
-  | ok m => simp [hm, isErr] at hw
-  | error e =>
-    simp [hm, isErr] at hw
-    have := h fBase fOurs fTheirs (Or.inr rfl) (by decide) (by decide) (by decide) e hm
-    subst hw
-    exact absurd this (by decide)
+  obtain ⟨m, hm⟩ := h fBase fOurs fTheirs witness_typeConsistent (by decide) (by decide) (by decide)
+  simp [hm, isErr] at hw
 
 /-- after the fix the same inputs merge: row 1 is a delete/modify conflict, ours' row is kept -/
 theorem merge_total_witness_after_fix :
@@ -148,19 +151,145 @@ theorem rowmerge_schema_refuted : ¬ rowmerge_schema_full := by
   rw [reorder_rawbytes_witness.1]
   decide
 
+/-! ### rowmerge_spec, merge_symmetric, merge_total for tables sharing one schema -/
+
+theorem cellMerge_symm (b l r : Val) : cellMerge b r l = cellMerge b l r := by
+  unfold cellMerge
+  by_cases h1 : l = r
+  · subst h1; rfl
+  · have h1' : ¬ r = l := fun e => h1 e.symm
+    by_cases h2 : l = b <;> by_cases h3 : r = b <;> simp_all
+
+theorem cellMergeNoBase_symm (l r : Val) : cellMergeNoBase r l = cellMergeNoBase l r := by
+  unfold cellMergeNoBase
+  by_cases h1 : l = r
+  · subst h1; rfl
+  · have h1' : ¬ r = l := fun e => h1 e.symm
+    simp [h1, h1']
+
+theorem rowMergeSpec_symm (s : Schema) (b : Option Row) (l r : Row) :
+    rowMergeSpec s b r l = rowMergeSpec s b l r := by
+  cases b with
+  | none => simp only [rowMergeSpec]; congr 1; funext i; exact cellMergeNoBase_symm _ _
+  | some bb => simp only [rowMergeSpec]; congr 1; funext i; exact cellMerge_symm _ _ _
+
+/-- swapping the sides of the per-key specification: the same keys conflict, and an unconflicted
+key gets the same row -/
+theorem specKey_symm (s : Schema) (b l r : Option Row) :
+    (specKey s b r l).2 = (specKey s b l r).2 ∧
+    ((specKey s b l r).2 = false → (specKey s b r l).1 = (specKey s b l r).1) := by
+  unfold specKey
+  by_cases h1 : r = b
+  · by_cases h2 : l = b
+    · subst h1; subst h2; simp
+    · subst h1; simp [h2]
+  · by_cases h2 : l = b
+    · subst h2; simp [h1]
+    · by_cases h3 : l = r
+      · subst h3; simp [h1]
+      · have h3' : ¬ r = l := fun e => h3 e.symm
+        simp only [h1, h2, h3, h3', if_false]
+        cases l with
+        | none => cases r <;> simp
+        | some ll =>
+          cases r with
+          | none => simp
+          | some rr =>
+            simp only [rowMergeSpec_symm s b ll rr]
+            cases rowMergeSpec s b ll rr <;> simp
+
+/-- **rowmerge_spec.**  For every three tables sharing a schema (distinct column ids, well-typed rows)
+`MergeTable` succeeds, keeps the schema, and for EVERY key the merged row and the recorded conflict
+are exactly the ones the property demands (`specKey`: one-sided change wins, equal changes → that,
+cell-wise combination, both changed a cell differently → conflict, delete/modify → conflict,
+delete/untouched → delete; a conflicted key keeps ours). -/
+theorem rowmerge_spec (s : Schema) (hd : idsDistinct s = true) (base ours theirs : Rows)
+    (hb : tableOk ⟨s, base⟩ = true) (ho : tableOk ⟨s, ours⟩ = true) (ht : tableOk ⟨s, theirs⟩ = true) :
+    ∃ m, mergeTable ⟨s, base⟩ ⟨s, ours⟩ ⟨s, theirs⟩ = .ok m ∧ m.sch = s ∧
+      ∀ k, (get m.rows k, decide (k ∈ m.conflicts)) = specKey s (get base k) (get ours k) (get theirs k) := by
+  unfold mergeTable mergeTableG
+  by_cases e1 : (⟨s, ours⟩ : Table) = ⟨s, theirs⟩
+  · refine ⟨⟨s, ours, [], {}, "short"⟩, by simp [e1, pure, Except.pure], rfl, fun k => ?_⟩
+    have : ours = theirs := by injection e1
+    subst this
+    unfold specKey
+    by_cases h1 : get ours k = get base k <;> simp [h1]
+  · by_cases e2 : (⟨s, theirs⟩ : Table) = ⟨s, base⟩
+    · refine ⟨⟨s, ours, [], {}, "short"⟩, by simp [e1, e2, pure, Except.pure], rfl, fun k => ?_⟩
+      have : theirs = base := by injection e2
+      subst this
+      simp [specKey]
+    · by_cases e3 : (⟨s, ours⟩ : Table) = ⟨s, base⟩
+      · have hob : ours = base := by injection e3
+        subst hob
+        have n1 : ¬ ours = theirs := fun e => e1 (by rw [e])
+        have n2 : ¬ theirs = ours := fun e => n1 e.symm
+        refine ⟨⟨s, theirs, [], {}, "short"⟩, by simp [n1, n2, pure, Except.pure], rfl, fun k => ?_⟩
+        unfold specKey
+        by_cases h1 : get theirs k = get ours k <;> simp [h1]
+      · have hsm : schemaMerge s s s = .ok (s, {}) := by simp [schemaMerge, pure, Except.pure]
+        have hcf : canFast ⟨⟨s, s, s, s, false⟩, {}⟩ = true := by simp [canFast]
+        obtain ⟨rows, confs, st, hm, hrows, hconfs⟩ :=
+          mergeKeys_spec (mergeKeyFastG leftTypeSchemaInRightDeleteBranch ⟨sameVM s, {}⟩)
+            (specKey s) false base ours theirs (allKeys base ours theirs)
+            (fun k => mergeKeyFast_spec s hd _ rfl {} _ _ _ (okOpt_get s base hb k)
+              (okOpt_get s ours ho k) (okOpt_get s theirs ht k))
+        simp only [sameVM] at hm
+        refine ⟨⟨s, rows, confs, { st with dataConflicts := confs.length }, "fast"⟩, ?_, rfl, fun k => ?_⟩
+        · simp [e1, e2, e3, hsm, hcf, hm, bind, Except.bind, pure, Except.pure]
+        · by_cases hk : k ∈ allKeys base ours theirs
+          · have h2 := hconfs k
+            simp only [hrows k, hk, if_true, true_and] at h2 ⊢
+            cases hc : (specKey s (get base k) (get ours k) (get theirs k)).2
+            · have : ¬ k ∈ confs := fun e => by simp [h2.1 e] at hc
+              simp [this, Prod.ext_iff, hc]
+            · have : k ∈ confs := h2.2 hc
+              simp [this, Prod.ext_iff, hc]
+          · obtain ⟨g1, g2, g3⟩ := get_none_of_not_allKeys base ours theirs k hk
+            have : ¬ k ∈ confs := fun e => hk ((hconfs k).1 e).1
+            simp [hrows k, hk, this, g1, g2, g3, specKey]
+
+/-- **merge_total (same schema).**  Within one schema the merge never fails. -/
+theorem merge_total_same_schema (s : Schema) (hd : idsDistinct s = true) (base ours theirs : Rows)
+    (hb : tableOk ⟨s, base⟩ = true) (ho : tableOk ⟨s, ours⟩ = true) (ht : tableOk ⟨s, theirs⟩ = true) :
+    ∃ m, mergeTable ⟨s, base⟩ ⟨s, ours⟩ ⟨s, theirs⟩ = .ok m := by
+  obtain ⟨m, hm, _⟩ := rowmerge_spec s hd base ours theirs hb ho ht
+  exact ⟨m, hm⟩
+
+/-- **merge_symmetric.**  Merging theirs into ours and ours into theirs conflict on exactly the same
+keys, and every unconflicted key holds the same row both ways round (a conflicted key holds the
+respective "ours", as the conflict rows — base / ours / theirs — say, mirrored). -/
+theorem merge_symmetric (s : Schema) (hd : idsDistinct s = true) (base ours theirs : Rows)
+    (hb : tableOk ⟨s, base⟩ = true) (ho : tableOk ⟨s, ours⟩ = true) (ht : tableOk ⟨s, theirs⟩ = true) :
+    ∃ m m', mergeTable ⟨s, base⟩ ⟨s, ours⟩ ⟨s, theirs⟩ = .ok m ∧
+      mergeTable ⟨s, base⟩ ⟨s, theirs⟩ ⟨s, ours⟩ = .ok m' ∧
+      ∀ k, (k ∈ m.conflicts ↔ k ∈ m'.conflicts) ∧ (k ∉ m.conflicts → get m.rows k = get m'.rows k) := by
+  obtain ⟨m, hm, _, h1⟩ := rowmerge_spec s hd base ours theirs hb ho ht
+  obtain ⟨m', hm', _, h2⟩ := rowmerge_spec s hd base theirs ours hb ht ho
+  refine ⟨m, m', hm, hm', fun k => ?_⟩
+  have a := h1 k
+  have b := h2 k
+  obtain ⟨s1, s2⟩ := specKey_symm s (get base k) (get ours k) (get theirs k)
+  simp only [Prod.ext_iff] at a b
+  constructor
+  · have : decide (k ∈ m.conflicts) = decide (k ∈ m'.conflicts) := by rw [a.2, b.2, s1]
+    simpa using this
+  · intro hn
+    have hf : (specKey s (get base k) (get ours k) (get theirs k)).2 = false := by
+      rw [← a.2]; simpa using hn
+    rw [a.1, b.1, s2 hf]
+
 /-! ### statements compared on the implementation only (not proved) -/
 
-/-- cell-wise specification for equal schemas (spec written in `rmkit.SpecKey`) -/
-def rowmerge_spec_full : Prop :=
-  ∀ (s : Schema) (b l r : Row), rowOk s b = true → rowOk s l = true → rowOk s r = true →
-    l ≠ b → r ≠ b → l ≠ r →
-    ∃ res, tryMerge ⟨s, s, s, s, false⟩ (some l) (some r) (some b) = .ok res ∧
-      (res.2 = true ↔ ∀ i, i < s.length → (l[i]? = r[i]? ∨ l[i]? = b[i]? ∨ r[i]? = b[i]?))
-
-/-- swapping the sides mirrors the outcome -/
-def merge_symmetric_full : Prop :=
-  ∀ (base ours theirs : Table),
-    conflictsOf (mergeTable base ours theirs) = conflictsOf (mergeTable base theirs ours)
+/-- the one-sided-schema-change generalisations (spec after mapping both sides into the result
+schema; totality) need the hypothesis `NoRawByteAlias` — no two versions of a key under different
+schemas have equal stored tuples but different logical rows — which excludes the shapes of known
+finding merge-reorder-rawbytes; they are exercised by the harness oracle only. -/
+def NoRawByteAlias (base ours theirs : Table) : Prop :=
+  ∀ k (x y : Table), x ∈ [base, ours, theirs] → y ∈ [base, ours, theirs] → x.sch ≠ y.sch →
+    ∀ a b, get x.rows k = some a → get y.rows k = some b → rawEq a b = true →
+      ∀ c, c ∈ x.sch → c ∈ y.sch →
+        (findCol x.sch c.id).bind (fun i => a[i]?) = (findCol y.sch c.id).bind (fun i => b[i]?)
 
 example : rowOk fOurs.sch [none, some (.int 11)] = true := by decide
 
